@@ -1291,6 +1291,55 @@ def _r21k(chk, repo) -> None:
     chk.floor("R21k.argument_overrides", 3)
 
 
+def _r21l(chk, repo) -> None:
+    f = repo.fn("src/sqlfluff/core/rules/base.py", "RuleSet.get_rulepack")
+    cfg = cfg_of(f)
+    loops = [l for l in walk_local(f) if isinstance(l, ast.For) and any(isinstance(c, ast.Call) and any(k.arg is None for k in c.keywords) for c in ast.walk(l))]
+    chk.count("R21l.instantiation_loops", len(loops))
+    if not loops:
+        raise AnalysisError("R21l: get_rulepack has no loop that instantiates rule classes with **kwargs; re-confirm the anchor by hand")
+
+    def fresh(e) -> bool:
+        if isinstance(e, (ast.Dict, ast.DictComp)):
+            # {**a} copies; {"k": v} is new
+            return True
+        if isinstance(e, ast.Call):
+            n = call_name(e)
+            if n == "dict" or n in ("copy.copy", "copy.deepcopy", "deepcopy") or (isinstance(e.func, ast.Attribute) and e.func.attr == "copy" and not e.args):
+                return True
+        if isinstance(e, ast.BinOp) and isinstance(e.op, ast.BitOr):
+            return True  # dict | dict builds a new dict
+        return False
+
+    for loop in loops:
+        inside = {id(x) for b in loop.body for x in ast.walk(b)}
+        uses = []  # (name node, statement, what)
+        for n in (x for b in loop.body for x in ast.walk(b)):
+            if isinstance(n, ast.Call):
+                for k in n.keywords:
+                    if k.arg is None and isinstance(k.value, ast.Name) and isinstance(n.func, ast.Name):
+                        uses.append((k.value, n, "is splatted into the rule class"))
+                if isinstance(n.func, ast.Attribute) and n.func.attr in ("update", "setdefault", "pop", "popitem", "clear", "__setitem__") and isinstance(n.func.value, ast.Name):
+                    uses.append((n.func.value, n, f"is changed in place (.{n.func.attr})"))
+            elif isinstance(n, ast.Subscript) and isinstance(n.ctx, (ast.Store, ast.Del)) and isinstance(n.value, ast.Name):
+                uses.append((n.value, n, "is changed in place (item assignment)"))
+            elif isinstance(n, ast.AugAssign) and isinstance(n.target, ast.Name) and isinstance(n.op, ast.BitOr):
+                uses.append((n.target, n, "is changed in place (|=)"))
+        chk.count("R21l.dict_uses", len(uses))
+        for nm, node, what in uses:
+            at = cfg.stmt_of(node)
+            os_ = origins(cfg, nm, at) if isinstance(nm.ctx, ast.Load) else origins(cfg, ast.copy_location(ast.Name(id=nm.id, ctx=ast.Load()), nm), at)
+            bad = [o for o in os_ if not (o.kind == "expr" and not o.path and isinstance(o.expr, ast.AST) and fresh(o.expr) and o.stmt is not None and id(o.stmt) in inside)]
+            chk.require(
+                bool(os_) and not bad, "R21l", node,
+                f"in get_rulepack's loop over the selected rules `{nm.id}` {what} but is not a dict created inside the iteration (it is "
+                + (", ".join(sorted({o.text()[:60] for o in bad})) or "of unknown origin")
+                + "): the same object is shared by all rules (or is the config's own section), so the options written for one rule -- its specific section, code, description -- are seen by the rules instantiated after it",
+                detail=f"get_rulepack: `{nm.id}` fresh per rule", construct="src/sqlfluff/core/rules/base.py::RuleSet.get_rulepack",
+            )
+    chk.floor("R21l.dict_uses", 3)
+
+
 def _r21j(chk, repo) -> None:
     f = repo.fn("src/sqlfluff/core/rules/base.py", "RuleSet.get_rulepack")
     cfg = cfg_of(f)
@@ -1388,6 +1437,8 @@ def run(chk) -> None:
     _r21k(chk, chk.repo)
     chk.rule("R21j", "'all rules' is the default only for an allow-list that was not configured: in get_rulepack the `<list> or <all codes>` fallback is applied to the value read from the config itself, never to a list that was filtered first (a selection of unknown references selects nothing, not everything)")
     _r21j(chk, chk.repo)
+    chk.rule("R21l", "every rule is configured from its own dict: in get_rulepack's loop over the selected codes, the dict splatted into the rule class and every dict changed in place there is created afresh inside the iteration (a literal, dict(..), a comprehension or a copy) -- never an alias of the generic rule config or of a config section, through which one rule's options would reach the next rule")
+    _r21l(chk, chk.repo)
     chk.rule("R21i", "the derived selection lists (rule_allowlist, rule_denylist, ignore, warnings) are recomputed from their source key every time: in FluffConfig._handle_comma_separated_values every path through the loop body stores the derived key")
     _r21i(chk, chk.repo)
     chk.rule("R21h", "the selector expander drops no selector: every path through the body of its loop over the given selectors looks the selector up in the reference map (direct entry) or matches it as a glob against the map's keys")
@@ -1412,6 +1463,42 @@ ST05 = "src/sqlfluff/rules/structure/ST05.py"
 ST06 = "src/sqlfluff/rules/structure/ST06.py"
 
 VARIANTS: List[Variant] = [
+    Variant(
+        "r21l-kwargs-alias-generic-config", "src/sqlfluff/core/rules/base.py",
+        "            kwargs = {}\n            rule_class = self._register[code].rule_class\n",
+        "            kwargs = generic_rule_config\n            rule_class = self._register[code].rule_class\n",
+        "R21l", "get_rulepack", "seeded C21-9",
+    ),
+    Variant(
+        "r21l-kwargs-alias-specific-section", "src/sqlfluff/core/rules/base.py",
+        "            if generic_rule_config:\n                kwargs.update(generic_rule_config)\n            if specific_rule_config:\n                # Validate specific rule config before adding\n                self._validate_config_options(config, rule_config_ref)\n                kwargs.update(specific_rule_config)\n",
+        "            if specific_rule_config:\n                # Validate specific rule config before adding\n                self._validate_config_options(config, rule_config_ref)\n                kwargs = specific_rule_config\n            for k, v in generic_rule_config.items():\n                kwargs.setdefault(k, v)\n",
+        "R21l", "get_rulepack", "the config's own section object is written to (code, description, generic keys)",
+    ),
+    Variant(
+        "r21l-kwargs-created-before-the-loop", "src/sqlfluff/core/rules/base.py",
+        "        for code in keylist:\n            kwargs = {}\n",
+        "        kwargs = {}\n        for code in keylist:\n",
+        "R21l", "get_rulepack", "one dict for all rules: specific options accumulate",
+    ),
+    Variant(
+        "quiet-r21l-kwargs-copy-of-generic", "src/sqlfluff/core/rules/base.py",
+        "            kwargs = {}\n            rule_class = self._register[code].rule_class\n",
+        "            kwargs = dict(generic_rule_config)\n            rule_class = self._register[code].rule_class\n",
+        "QUIET", None, "R21l: starts from a copy",
+    ),
+    Variant(
+        "quiet-r21l-kwargs-unpacked-literal", "src/sqlfluff/core/rules/base.py",
+        "            kwargs = {}\n            rule_class = self._register[code].rule_class\n",
+        "            kwargs = {**generic_rule_config}\n            rule_class = self._register[code].rule_class\n",
+        "QUIET", None, "R21l: starts from an unpacking literal",
+    ),
+    Variant(
+        "quiet-r21l-kwargs-copy-method", "src/sqlfluff/core/rules/base.py",
+        "            kwargs = {}\n            rule_class = self._register[code].rule_class\n",
+        "            kwargs = generic_rule_config.copy()\n            rule_class = self._register[code].rule_class\n",
+        "QUIET", None, "R21l: starts from .copy()",
+    ),
     Variant(
         "simple-api-drops-an-empty-exclusion-list", "src/sqlfluff/api/simple.py",
         "    if exclude_rules is not None:\n",
